@@ -1273,7 +1273,7 @@ def read_optional_block(state: State, data: ReadBuffer) -> Block | None:
     if n == 0:
         b = None
     else:
-        a = [read_statement(state, data) for i in range(n)]
+        a = read_statements(state, data, n)
         b = Block(a, is_unreachable=is_unreachable)
         b.line = a[0].line
         b.column = a[0].column
